@@ -22,6 +22,8 @@ type Solver struct {
 	timeoutMs int
 	log       *os.File
 	bin       []string
+	tactic    string
+	noTactic  bool
 	history   []string // commands since the last reset (for restart after a hard timeout)
 	nRestart  int
 
@@ -254,7 +256,11 @@ func (s *Solver) CheckEval(c *Ctx, pcs []*Term, extra *Term, wantModel bool, q [
 		s.send("(assert " + extra.ref() + ")")
 	}
 	t0 := time.Now()
-	s.rawSend("(check-sat)")
+	checkCmd := "(check-sat)"
+	if s.tactic != "" && !s.noTactic {
+		checkCmd = "(check-sat-using " + s.tactic + ")"
+	}
+	s.rawSend(checkCmd)
 	s.rawSend("(echo \"@@done\")")
 	res := "unknown"
 	sawErr := false
@@ -298,6 +304,14 @@ func (s *Solver) CheckEval(c *Ctx, pcs []*Term, extra *Term, wantModel bool, q [
 		hist := append([]string(nil), s.history...)
 		s.restart(hist)
 		return "unknown", nil
+	}
+	if (sawErr || res == "unknown") && s.tactic != "" && !s.noTactic {
+		// the tactic pipeline could not decide: retry with the default solver
+		s.noTactic = true
+		s.send("(pop 1)")
+		r, v := s.CheckEval(c, pcs, extra, wantModel, q, more)
+		s.noTactic = false
+		return r, v
 	}
 	if sawErr {
 		res = "unknown"
